@@ -44,42 +44,61 @@ def _strip_comments(src):
     return ''.join(out)
 
 
-def hygiene():
-    """Tripwire over the whole development; the authority is Print Assumptions / coqchk."""
+def _closure(pid):
+    """.v files the property's Props.v and Corr.v depend on (transitively, inside this development)."""
+    th = os.path.join(COQ, 'theories')
+    todo = [os.path.join(th, pid, 'Props.v'), os.path.join(th, pid, 'Corr.v')]
+    seen = []
+    while todo:
+        f = todo.pop()
+        if f in seen or not os.path.exists(f):
+            continue
+        seen.append(f)
+        src = _strip_comments(open(f).read())
+        for m in re.finditer(r'From\s+PV\s+Require\s+(?:Import|Export)\s+(.*?)\.\s', src + ' ', re.S):
+            for mod in m.group(1).split():
+                todo.append(os.path.join(th, *mod.split('.')) + '.v')
+        for m in re.finditer(r'(?<!PV )Require\s+(?:Import|Export)\s+(.*?)\.\s', src + ' ', re.S):
+            for mod in m.group(1).split():
+                if mod.startswith('PV.'):
+                    todo.append(os.path.join(th, *mod.split('.')[1:]) + '.v')
+    return sorted(seen)
+
+
+def hygiene(pid):
+    """Tripwire over every file this property depends on; the authority is Print Assumptions / coqchk."""
     problems = []
-    for root, _, files in os.walk(os.path.join(COQ, 'theories')):
-        for f in sorted(files):
-            if not f.endswith('.v'):
-                continue
-            path = os.path.join(root, f)
-            src = _strip_comments(open(path).read())
-            depth = 0
-            for ln, line in enumerate(src.splitlines(), 1):
-                if re.match(r'\s*(Section|Module)\b', line):
-                    depth += 1
-                elif re.match(r'\s*End\b', line):
-                    depth = max(0, depth - 1)
-                m = HYGIENE.search(line)
-                if m:
-                    problems.append('%s:%d: %s' % (path, ln, m.group(0)))
-                if depth == 0 and re.match(r'\s*(Variable|Variables|Hypothesis|Hypotheses|Context)\b', line):
-                    problems.append('%s:%d: %s outside a Section' % (path, ln, line.strip()[:40]))
-    proj = open(os.path.join(COQ, '_CoqProject')).read()
-    if re.search(r'type-in-type|impredicative-set|-vos|-vok', proj):
+    for path in _closure(pid):
+        src = _strip_comments(open(path).read())
+        depth = 0
+        for ln, line in enumerate(src.splitlines(), 1):
+            if re.match(r'\s*(Section|Module)\b', line):
+                depth += 1
+            elif re.match(r'\s*End\b', line):
+                depth = max(0, depth - 1)
+            m = HYGIENE.search(line)
+            if m:
+                problems.append('%s:%d: %s' % (path, ln, m.group(0)))
+            if depth == 0 and re.match(r'\s*(Variable|Variables|Hypothesis|Hypotheses|Context)\b', line):
+                problems.append('%s:%d: %s outside a Section' % (path, ln, line.strip()[:40]))
+    proj = os.path.join(COQ, '_CoqProject')
+    if os.path.exists(proj) and re.search(r'type-in-type|impredicative-set|-vos|-vok', open(proj).read()):
         problems.append('_CoqProject: forbidden flag')
     return problems
 
 
-def build(timeout=3000):
-    """make the whole development (serialised across concurrently running checks)."""
+def build(pid=None, timeout=3000):
+    """make what the property needs (serialised across concurrently running checks)."""
     lock = open(os.path.join(COQ, '.build.lock'), 'w')
     fcntl.flock(lock, fcntl.LOCK_EX)
     try:
-        if not os.path.exists(os.path.join(COQ, 'Makefile')) or \
-                os.path.getmtime(os.path.join(COQ, 'Makefile')) < os.path.getmtime(os.path.join(COQ, '_CoqProject')):
+        r = subprocess.run(['/venv/bin/python', os.path.join(VERIF, 'tools', 'gen_coqproject.py')],
+                           stdout=subprocess.PIPE, text=True)
+        if 'changed' in r.stdout or not os.path.exists(os.path.join(COQ, 'Makefile')):
             subprocess.run(['coq_makefile', '-f', '_CoqProject', '-o', 'Makefile'], cwd=COQ,
                            check=True, stdout=subprocess.DEVNULL, stderr=subprocess.DEVNULL)
-        r = subprocess.run(['timeout', str(timeout), 'make', '-j16'], cwd=COQ,
+        targets = ['theories/%s/Props.vo' % pid, 'theories/%s/Corr.vo' % pid] if pid else []
+        r = subprocess.run(['timeout', str(timeout), 'make', '-j16'] + targets, cwd=COQ,
                            stdout=subprocess.PIPE, stderr=subprocess.STDOUT, text=True)
         return r.returncode == 0, r.stdout[-4000:]
     finally:
